@@ -72,11 +72,11 @@ func (p *Parser) rune() rune {
 	bquotes := 0
 retry:
 	if p.bsp >= uint(len(p.bs)) && p.fill() == 0 {
-		if len(p.bs) == 0 {
-			// Necessary for the last position to be correct.
-			// TODO: this is not exactly intuitive; figure out a better way.
-			p.bsp = 1
-		}
+		// Necessary for the last position to be correct.
+		// Any lookahead may have hit the end of the input while
+		// some bytes were still unread, so p.bs need not be empty.
+		// TODO: this is not exactly intuitive; figure out a better way.
+		p.bsp = uint(len(p.bs)) + 1
 		p.r = runeEOF
 		p.w = 1
 		return p.r
@@ -1077,24 +1077,30 @@ loop:
 // zshNumRange peeks at the bytes after '<' to check for a zsh numeric
 // range glob pattern like <->, <5->, <-10>, or <5-10>.
 func (p *Parser) zshNumRange() bool {
-	// Peeking a handful of bytes here should be enough.
-	// TODO: This should loop for slow readers, e.g. those providing one byte at
-	// a time. Use a loop and test it with [testing/iotest.OneByteReader].
-	if int(p.bsp) >= len(p.bs) {
-		p.fill()
+	// Loop for slow readers, e.g. those providing one byte at a time.
+	for {
+		rest := p.bs[min(p.bsp, uint(len(p.bs))):]
+		for len(rest) > 0 && rest[0] >= '0' && rest[0] <= '9' {
+			rest = rest[1:]
+		}
+		if len(rest) > 0 {
+			if rest[0] != '-' {
+				return false
+			}
+			rest = rest[1:]
+			for len(rest) > 0 && rest[0] >= '0' && rest[0] <= '9' {
+				rest = rest[1:]
+			}
+			if len(rest) > 0 {
+				return rest[0] == '>'
+			}
+		}
+		// We ran out of buffered bytes before reaching a decision;
+		// give up if the buffer cannot hold any more of them.
+		if len(p.bs)-int(p.bsp) >= bufSize || p.fill() == 0 {
+			return false
+		}
 	}
-	rest := p.bs[p.bsp:]
-	for len(rest) > 0 && rest[0] >= '0' && rest[0] <= '9' {
-		rest = rest[1:]
-	}
-	if len(rest) == 0 || rest[0] != '-' {
-		return false
-	}
-	rest = rest[1:]
-	for len(rest) > 0 && rest[0] >= '0' && rest[0] <= '9' {
-		rest = rest[1:]
-	}
-	return len(rest) > 0 && rest[0] == '>'
 }
 
 func (p *Parser) advanceLitNone(r rune) {
